@@ -230,6 +230,58 @@ func init() {
 					jobs = append(jobs, labelJob(randomLabelProg(rng, 3, dShort, append(dLong, 511), 8), fmt.Sprintf("LP3r/%d", i)))
 				}
 			}
+			// symbolic distances (C06-sym): all one-jump programs; two-jump programs in thorough
+			k1 := []string{"next", "load", "ret1", "ret2"}
+			for _, t := range k1 {
+				for _, f := range k1 {
+					if t == "next" && f == "next" {
+						continue
+					}
+					modes := []int{0}
+					if t == f && t != "load" {
+						modes = []int{0, 1}
+					}
+					for _, m := range modes {
+						jobs = append(jobs, run.Job{ID: fmt.Sprintf("LPsym1/m%d/%s/%s", m, t, f), Pkg: run.Module, Harness: "H_LabelSym",
+							Params: map[string]interface{}{"K": 1, "mode": m, "j1.t": t, "j1.f": f}})
+					}
+				}
+			}
+			if c.Tier == "thorough" {
+				j1 := []string{"next", "load", "J2", "ret1", "ret2"}
+				type combo struct{ a, b, c, d string }
+				var all []combo
+				for _, a := range j1 {
+					for _, b := range j1 {
+						if a == "next" && b == "next" {
+							continue
+						}
+						for _, c2 := range k1 {
+							for _, d := range k1 {
+								if c2 == "next" && d == "next" {
+									continue
+								}
+								all = append(all, combo{a, b, c2, d})
+							}
+						}
+					}
+				}
+				pick := map[int]bool{}
+				for _, i := range []int{3, 17, 44, 61, 89, 120, 151, 199, 230, 262, 301, 340} {
+					pick[i%len(all)] = true
+				}
+				for len(pick) < 48 {
+					pick[rng.Intn(len(all))] = true
+				}
+				for i := range all {
+					if !pick[i] {
+						continue
+					}
+					cb := all[i]
+					jobs = append(jobs, run.Job{ID: fmt.Sprintf("LPsym2/%d/m%d/%s/%s/%s/%s", i, i%2, cb.a, cb.b, cb.c, cb.d), Pkg: run.Module, Harness: "H_LabelSym", Weight: 5000,
+						Params: map[string]interface{}{"K": 2, "mode": i % 2, "j1.t": cb.a, "j1.f": cb.b, "j2.t": cb.c, "j2.f": cb.d}})
+				}
+			}
 			// policy level: programs above 255 instructions
 			layouts := []condLayout{{64, 1}, {70, 1}, {22, 3}}
 			if c.Tier == "thorough" {
@@ -253,8 +305,9 @@ func init() {
 		NeedCovers: []string{"cover.bridged", "cover.ret1", "cover.ret2"},
 		Bounds: map[string]interface{}{"K": "quick: all programs with 1 jump, a fixed stride plus a seed-selected slice of the 2-jump programs, 200 sampled 3-jump programs; thorough: all programs with <=2 jumps for distances {254,255,256}, a seed-selected ninth of those for distances 250..258, 4000 sampled programs with 3 and 4 jumps (also runs of 505..515 so that a bridge needs a bridge)",
 			"runs": "r0 in {0,1}; other runs from {0,1,2,3} or the long set, at least one long", "targets": "next instruction, a later jump, the start of a later non-empty run, either return; per-branch labels or labels shared by target", "values": "all 16 input words, all jump operands; conditions from the eight JumpTest kinds",
-			"policies": "long conditional lists and name lists above 255 instructions (decision obligation of C01/C03)"},
-		Outside:     []string{"more than 4 jumps in a label program", "backward jumps and unplaced labels (excluded by the statement)", "distances other than the listed run lengths", "symbolic distances (the C06-sym deepening of DESIGN.md was not built)"},
+			"policies": "long conditional lists and name lists above 255 instructions (decision obligation of C01/C03)",
+			"symbolic_distances": "H_LabelSym: the assembler runs on a constructed pre-state whose instruction list has SYMBOLIC length n <= 2^20 and whose jump and label indices are symbolic (abstract slice: only jumps, bridges and returns are known positions). All 17 one-jump programs (every target kind, shared and separate labels) in both tiers - i.e. ALL distances for one jump; 48 of the 720 two-jump programs (12 fixed + seeded) in thorough. Obligation: every resolved skip leads, directly or through inserted long jumps, to the instruction the label marked or to an inserted copy of the return it marked; no fall-through into an inserted instruction; length grows by the number of inserted instructions; Assemble terminates"},
+		Outside:     []string{"more than 4 jumps in a label program (concrete distances) / more than 2 (symbolic distances)", "backward jumps and unplaced labels (excluded by the statement)", "for programs with 3 and 4 jumps: distances other than the listed run lengths", "two-jump programs with symbolic distances outside the 48 sampled target combinations", "programs longer than 2^20 instructions in the symbolic-distance harness"},
 		Assumptions: []string{"inputs are 16 unconstrained 32-bit words", "jump operands unconstrained"},
 		Trusted:     append([]string{"harness/root/zz_verif_h_label.go: abstract label machine (vAbsRun), ~40 lines"}, policyTrusted...),
 	})
